@@ -92,6 +92,8 @@ def strategy(draw):
         st.tuples(st.just("tiny"), gen.floats(0, 2e-6)),
         st.tuples(st.just("nyq"), st.just(0)),
         st.tuples(st.just("above"), gen.floats(1.0, 1.5)),
+        # below the first bin of an FFT grid means below 0 Hz (kernels in linear frequency and Savitzky-Golay only)
+        st.tuples(st.just("neg" if op in ("linear_rectangular", "linear_triangular", "parzen", "savitzky_and_golay") else "low"), gen.floats(0, 3.0)),
     ), min_size=1, max_size=16))
     fcs = []
     for kind, v in fc_desc:
@@ -101,6 +103,8 @@ def strategy(draw):
             fcs.append(float(v * f[-1]))
         elif kind == "low":
             fcs.append(float(v * df))
+        elif kind == "neg":
+            fcs.append(float(-(0.2 + 4 * v) * df * (1 + (bw / df if op != "savitzky_and_golay" else bw))))
         elif kind == "zero":
             fcs.append(0.0)
         elif kind == "tiny":
@@ -243,6 +247,8 @@ def check_case(case):
         labels.append("on-grid-centre")
     if np.any(fcs > f[-1]):
         labels.append("fc-above-nyquist")
+    if np.any(fcs < 0):
+        labels.append("fc-below-0Hz")
 
     # (b) constant spectrum reproduced exactly
     c = case["const"]
